@@ -50,6 +50,7 @@ def programs(seed, tier):
                     [{"op": "to_addr", "h": "h", "nh": "t"}, {"op": "stop", "h": "t"}, {"op": "join", "h": "h"}, {"op": "join", "h": "h"}, {"op": "call", "h": "t"}],
                     [{"op": "consume", "h": "h"}],
                     [{"op": "consume_sync", "h": "h"}],
+                    [{"op": "to_addr", "h": "h", "nh": "t"}, {"op": "join_dd", "h": "h", "pre": "stop_t"}],
                     [{"op": "to_addr", "h": "h", "nh": "t"}, {"op": "consume_sync", "h": "h"}, {"op": "call", "h": "t"}],
                     [{"op": "to_addr", "h": "h", "nh": "t"}, {"op": "halt", "h": "t"}, {"op": "join", "h": "h"}],
                     [{"op": "detach", "h": "h", "nh": "t"}, {"op": "call", "h": "t"}, {"op": "halt", "h": "t"}],
@@ -60,6 +61,9 @@ def programs(seed, tier):
                     [{"op": "halt", "h": "h"}],
                     [{"op": "clone", "h": "h", "nh": "t"}, {"op": "stop", "h": "t"}, {"op": "await", "h": "t"}, {"op": "call", "h": "h"}, {"op": "stopped", "h": "h"}],
                 ])
+            end = [x for o in end for x in ([{"op": "stop", "h": "t"}, {k: v for k, v in o.items() if k != "pre"}] if o.get("pre") == "stop_t" else [o])]
+            if rng.random() < 0.35:
+                body.insert(rng.randrange(len(body) + 1), {"op": "call_sync", "h": "h"})
             add(f"{e}-{variant}", [sp] + body + end)
     # registry entry points: from_registry / setup / Addr::register / builder .register()
     add("from_registry-0", [{"op": "from_registry", "nh": "x"}, {"op": "call", "h": "x"}, {"op": "from_registry", "nh": "y"}, {"op": "call", "h": "y"},
@@ -89,6 +93,10 @@ def spec_program(p):
                         "fscr": [], "ty": "1", "items0": 0, "ended0": False, "iscr": []}
         elif o["op"] == "register_builder":
             s["op"] = "register"
+        elif o["op"] == "join_dd":
+            s["op"] = "join"
+        elif o["op"] == "call_sync":
+            s["op"] = "call"
         elif o["op"] in ("from_registry", "setup", "unregister"):
             s["ty"] = "1"
         ops.append(s)
